@@ -178,7 +178,7 @@ def erf_case(ctx, PL, rng, name, tier):
 
 
 def run(tier, seed):
-    ctx = core.Ctx(PROP, tier, seed, "translation_validation", ["C16"])
+    ctx = core.Ctx(PROP, tier, seed, "translation_validation", ["C16", "C16b"])
     ctx.axioms = core.audit(ctx.modules)
     import pyqsp.poly as PL
     rng = ctx.rng
